@@ -331,7 +331,11 @@ func callName(cc *ssa.CallCommon) string {
 		return cc.Method.Name()
 	}
 	if f := cc.StaticCallee(); f != nil {
-		return f.Name()
+		n := f.Name()
+		if i := strings.Index(n, "["); i > 0 {
+			n = n[:i] // instance of a generic function: the name used in clauses has no type arguments
+		}
+		return n
 	}
 	if b, ok := cc.Value.(*ssa.Builtin); ok {
 		return b.Name()
